@@ -1716,13 +1716,16 @@ impl Block {
                                             // Prepare input slips
                                             //
                                             let mut input1 = slip1.clone();
-                                            let mut input2 = slip2.clone();
+                                            let input2 = slip2.clone();
                                             let mut input3 = slip3.clone();
 
                                             //
-                                            // for fee accounting of payload
+                                            // the input slips are the outputs being rebroadcast, unchanged:
+                                            // they are what the utxo set holds and what this transaction
+                                            // consumes. the premium paid by the treasury shows in the output
+                                            // and is accounted for in total_payout_atr, the fee in
+                                            // total_fees_atr.
                                             //
-                                            input2.amount = atr_payout_for_slip;
 
                                             //
                                             // Prepare output slips, only payload slip carries ATR amount
@@ -1796,13 +1799,12 @@ impl Block {
                                             slip.amount = atr_payout_for_slip - atr_fee_for_slip;
 
                                             //
-                                            // we update the "input" slip so that it
-                                            // will result in cumulative fees being
-                                            // calculated correctly when the TX is
-                                            // examined....
+                                            // the input slip is the output being rebroadcast, unchanged: it
+                                            // is what the utxo set holds and what this transaction consumes.
+                                            // the premium paid by the treasury shows in the output and is
+                                            // accounted for in total_payout_atr, the fee in total_fees_atr.
                                             //
-                                            let mut from_slip = output.clone();
-                                            from_slip.amount = atr_payout_for_slip;
+                                            let from_slip = output.clone();
 
                                             //
                                             // track payouts and fees
@@ -1946,6 +1948,18 @@ impl Block {
                             }
 
                             cv.total_fees_atr = 0;
+
+                            //
+                            // the amounts of the rebroadcast transactions have changed: the
+                            // commitment to them is recomputed over what the block will carry
+                            //
+                            cv.rebroadcast_hash = [0; 32];
+                            for rebroadcast_tx in &cv.rebroadcasts {
+                                let mut vbytes: Vec<u8> = vec![];
+                                vbytes.extend(&cv.rebroadcast_hash);
+                                vbytes.extend(&rebroadcast_tx.serialize_for_signature());
+                                cv.rebroadcast_hash = hash(&vbytes);
+                            }
                         }
                     } else {
                         error!(
